@@ -267,7 +267,7 @@ def run(ctx):
     if cases and not ctx.corr_broken and not ctx.violations:
         for k in ("input_with_password_and_secret", "secret_ref", "password", "unnumbered", "repeated_prefix", "repeated_prefix_other_localpref",
                   "adv_with_localpref", "communities", "neighbor_without_advertisement", "multi_neighbor", "pw_cases",
-                  "reconciled_cases", "reconciled_at_debug", "reconciled_with_password", "reconciled_with_secret_ref",
+                  "reconciled_single_field_changes", "reconciled_shrink_to_empty", "reconciled_cases", "reconciled_at_debug", "reconciled_with_password", "reconciled_with_secret_ref",
                   "k8s_histories", "k8s_hist_rejected_set", "k8s_hist_resync", "k8s_hist_close", "k8s_hist_set"):
             if st.get(k, 0) == 0:
                 raise Exception("generator degenerate: counter %s is zero: %r" % (k, st))
